@@ -90,8 +90,19 @@ impl IntPartition {
     #[verifier::external_body]
     pub fn find(&self, x: usize) -> (r: usize)
         requires x < usize::MAX
-        ensures r == self.rep(x as int)
+        ensures r == self.rep(x as int), self.rep(r as int) == r
     { unimplemented!() }
+    //@@ import partitions :: impl IntPartition::unite
+    #[verifier::external_body]
+    pub fn unite(&mut self, x: usize, y: usize)
+        requires x < usize::MAX, y < usize::MAX
+        ensures united(|z: int| old(self).rep(z), |z: int| final(self).rep(z), x as int, y as int)
+    { unimplemented!() }
+}
+pub open spec fn united(r0: spec_fn(int) -> int, r1: spec_fn(int) -> int, a: int, b: int) -> bool {
+    &&& forall|z: int| #[trigger] r1(z) == (if r0(z) == r0(a) || r0(z) == r0(b) { r1(a) } else { r0(z) })
+    &&& r1(a) == r1(b)
+    &&& (r1(a) == r0(a) || r1(a) == r0(b))
 }
 
 // =====================================================================================================
@@ -127,6 +138,8 @@ impl CosetTable {
         requires nr_gens < isize::MAX / 2
         ensures r.wf(), r.nr_gens == nr_gens, r.table@.len() == 1,
             forall|g: int| r.col_ok(g) ==> #[trigger] r.act(0, g).is_none(),
+            forall|g: int| r.col_ok(g) ==> #[trigger] r.raw(0, g) == -1,
+            forall|x: int| #[trigger] r.part.rep(x) == x,
     {
         Self {
             nr_gens,
@@ -227,7 +240,13 @@ impl CosetTable {
     fn join(&mut self, c: usize, d: usize, g: isize)
         requires old(self).wf(), old(self).col_ok(g as int), c <= isize::MAX, d <= isize::MAX, c < usize::MAX, d < usize::MAX, g > isize::MIN
         // after join, row c maps to d under g and d maps back to c under the inverse generator
-        ensures final(self).wf(), final(self).raw(d as int, -(g as int)) == c, (c != d || g != 0) ==> final(self).raw(c as int, g as int) == d
+        ensures final(self).wf(), final(self).raw(d as int, -(g as int)) == c, (c != d || g != 0) ==> final(self).raw(c as int, g as int) == d,
+            // frame: nothing else changes; rows created on the way are empty
+            final(self).nr_gens == old(self).nr_gens, final(self).part == old(self).part,
+            final(self).table@.len() >= old(self).table@.len(),
+            final(self).table@.len() == old(self).table@.len() || final(self).table@.len() == c + 1 || final(self).table@.len() == d + 1,
+            forall|c2: int, g2: int| 0 <= c2 < final(self).table@.len() && old(self).col_ok(g2) && !(c2 == c && g2 == g) && !(c2 == d && g2 == -(g as int))
+                ==> #[trigger] final(self).raw(c2, g2) == (if c2 < old(self).table@.len() { old(self).raw(c2, g2) } else { -1 }),
     {
         self.set(c, g, d);
         self.set(d, -g, c);
@@ -315,6 +334,35 @@ fn scan_inverse(
 }
 //@ end
 
+// a defined trace has defined prefixes
+proof fn lemma_trace_prefix(t: &CosetTable, row: int, w: Seq<isize>, k: int)
+    requires 0 <= k <= w.len(), trace(t, row, w).is_some()
+    ensures trace(t, row, w.take(k)).is_some()
+    decreases w.len()
+{
+    if k == w.len() { assert(w.take(k) =~= w); }
+    else {
+        assert(w.drop_last().take(k) =~= w.take(k));
+        lemma_trace_prefix(t, row, w.drop_last(), k);
+    }
+}
+
+proof fn lemma_cols_take(t: &CosetTable, w: Seq<isize>, k: int)
+    requires cols_ok(t, w), 0 <= k <= w.len()
+    ensures cols_ok(t, w.take(k))
+{
+    assert forall|j: int| 0 <= j < w.take(k).len() implies t.col_ok(#[trigger] w.take(k)[j] as int) by { assert(w.take(k)[j] == w[j]); }
+}
+
+proof fn lemma_cols_inv(t: &CosetTable, w: Seq<isize>)
+    requires cols_ok(t, w), reduced(w)
+    ensures cols_ok(t, inv_word(w))
+{
+    assert forall|j: int| 0 <= j < inv_word(w).len() implies t.col_ok(#[trigger] inv_word(w)[j] as int) by {
+        assert(t.col_ok(w[w.len() - 1 - j] as int)); assert(w[w.len() - 1 - j] > isize::MIN);
+    }
+}
+
 //@ begin src/fpgroups/cosets.rs :: - :: fn scan_both_ways
 //@ rw R16 /-> \(usize, usize, usize, isize\)/-> (res: (usize, usize, usize, isize))/
 fn scan_both_ways(table: &CosetTable, w: &FreeWord, start: usize)
@@ -326,10 +374,35 @@ fn scan_both_ways(table: &CosetTable, w: &FreeWord, start: usize)
             && trace(table, start as int, w@.take(i)) == Some(res.0)
             && trace(table, start as int, inv_word(w@).take(j)) == Some(res.1)
             && (res.2 >= 1 ==> res.3 == w@[i]),
+        // a word whose trace from `start` is defined everywhere is scanned to its end: no gap, head = end of the trace, tail = start
+        trace(table, start as int, w@).is_some() ==> res.2 == 0 && Some(res.0) == trace(table, start as int, w@) && res.1 == start,
+        // inside the table
+        rows_ok(table) && start < table.table@.len() ==> res.0 < table.table@.len() && res.1 < table.table@.len(),
+        res.2 >= 1 ==> table.col_ok(res.3 as int) && res.3 > isize::MIN && res.3 != 0,
 {
+    proof { w.lemma_reduced(); }
     let n = w.len();
     let (head, i) = scan(table, w, start, n);
     let (tail, j) = scan_inverse(table, w, start, n - i);
+    proof {
+        if trace(table, start as int, w@).is_some() {
+            if i < n {
+                lemma_trace_prefix(table, start as int, w@, i + 1);
+                assert(w@.take(i + 1).drop_last() =~= w@.take(i as int));
+                assert(w@.take(i + 1).last() == w@[i as int]);
+            }
+            assert(w@.take(n as int) =~= w@);
+            assert(inv_word(w@).take(0) =~= Seq::<isize>::empty());
+        }
+        if rows_ok(table) && start < table.table@.len() {
+            lemma_cols_take(table, w@, i as int);
+            lemma_trace_rows_ok(table, start as int, w@.take(i as int));
+            lemma_cols_inv(table, w@);
+            lemma_cols_take(table, inv_word(w@), j as int);
+            lemma_trace_rows_ok(table, start as int, inv_word(w@).take(j as int));
+        }
+        if i < n { assert(table.col_ok(w@[i as int] as int)); }
+    }
     (head, tail, n - i - j, if i < n { w[i] } else if n > 0 { w[0] } else { 0 })
 }
 //@ end
@@ -446,6 +519,336 @@ pub fn coset_representative(table: &CosetTable) -> (result: BTreeMap<usize, Free
 }
 //@ end
 
+// =====================================================================================================
+// merge / scan_and_connect / compact / coset_table  (C11: "every relator traced from every row returns to that row, and every
+// generator of H traced from row 0 returns to row 0" -- proved for every trace that is defined; that every trace IS defined, i.e.
+// completeness of the table, and the row count are decided by the bounded stand-in only)
+// =====================================================================================================
+// the bookkeeping invariant of the enumeration: entries and representatives stay inside the table, which stays below the row limit
+pub open spec fn rows_ok(t: &CosetTable) -> bool {
+    &&& t.wf()
+    &&& 1 <= t.table@.len() <= 100_000
+    &&& forall|c: int, g: int| 0 <= c < t.table@.len() && t.col_ok(g) ==> -1 <= #[trigger] t.raw(c, g) < t.table@.len()
+    &&& forall|x: int| 0 <= x < t.table@.len() ==> 0 <= #[trigger] t.part.rep(x) < t.table@.len()
+    &&& forall|x: int| #[trigger] t.part.rep(t.part.rep(x)) == t.part.rep(x)
+}
+
+proof fn lemma_act_in_range(t: &CosetTable, c: int, g: int)
+    requires rows_ok(t), t.col_ok(g), t.act(c, g).is_some()
+    ensures t.act(c, g).unwrap() < t.table@.len(), t.part.rep(t.act(c, g).unwrap() as int) == t.act(c, g).unwrap()
+{
+    assert(-1 <= t.raw(c, g) < t.table@.len());
+    assert(0 <= t.part.rep(t.raw(c, g)) < t.table@.len());
+}
+
+impl CosetTable {
+    //@ begin src/fpgroups/cosets.rs :: impl CosetTable :: fn merge
+    //@ rw R17 /for g in self\.all_gens\(\)$/for g in it: self.all_gens()/
+    #[verifier::exec_allows_no_decreases_clause]
+    fn merge(&mut self, a: usize, b: usize)
+        requires rows_ok(old(self)), a < old(self).table@.len(), b < old(self).table@.len()
+        ensures rows_ok(final(self)), final(self).nr_gens == old(self).nr_gens, final(self).table@.len() == old(self).table@.len()
+    {
+        let mut queue: VecDeque<(usize, usize)> = VecDeque::from([(a, b)]);
+        let ghost mut qg: Seq<(usize, usize)> = queue@;
+
+        while let Some((a, b)) = queue.pop_front()
+            invariant
+                qg == queue@,
+                rows_ok(self), self.nr_gens == old(self).nr_gens, self.table@.len() == old(self).table@.len(),
+                forall|k: int| 0 <= k < queue@.len() ==> (#[trigger] queue@[k]).0 < self.table@.len() && queue@[k].1 < self.table@.len(),
+        {
+            proof {
+                assert(qg[0] == (a, b));
+                assert forall|k: int| 0 <= k < queue@.len() implies (#[trigger] queue@[k]).0 < self.table@.len() && queue@[k].1 < self.table@.len() by { assert(queue@[k] == qg[k + 1]); }
+            }
+            let a = self.canon(a);
+            let b = self.canon(b);
+
+            if a != b {
+                for g in it: self.all_gens()
+                    invariant
+                        rows_ok(self), self.nr_gens == old(self).nr_gens, self.table@.len() == old(self).table@.len(),
+                        a < self.table@.len(), b < self.table@.len(),
+                        forall|k: int| 0 <= k < queue@.len() ==> (#[trigger] queue@[k]).0 < self.table@.len() && queue@[k].1 < self.table@.len(),
+                        forall|k: int| 0 <= k < it.seq().len() ==> self.gen_ok(#[trigger] it.seq()[k] as int),
+                {
+                    proof { assert(self.gen_ok(it.seq()[it.index() as int] as int)); }
+                    let ghost q0 = queue@;
+                    if let Some(ag) = self.get(a, g) {
+                        proof { lemma_act_in_range(self, a as int, g as int); }
+                        if let Some(bg) = self.get(b, g) {
+                            proof { lemma_act_in_range(self, b as int, g as int); }
+                            queue.push_back((ag, bg));
+                            proof {
+                                assert forall|k: int| 0 <= k < queue@.len() implies (#[trigger] queue@[k]).0 < self.table@.len() && queue@[k].1 < self.table@.len() by { if k < q0.len() { assert(queue@[k] == q0[k]); } }
+                            }
+                        } else {
+                            self.set(b, g, ag);
+                        }
+                    } else if let Some(bg) = self.get(b, g) {
+                        proof { lemma_act_in_range(self, b as int, g as int); }
+                        self.set(a, g, bg);
+                    }
+                }
+                let ghost r0 = self.part;
+                let ghost t0 = *self;
+                self.part.unite(a, b);
+                proof {
+                    assert(self.table == t0.table && self.nr_gens == t0.nr_gens);
+                    assert(self.wf());
+                    assert forall|c: int, g: int| 0 <= c < self.table@.len() && self.col_ok(g) implies -1 <= #[trigger] self.raw(c, g) < self.table@.len() by {
+                        assert(self.raw(c, g) == t0.raw(c, g));
+                    }
+                    let ra = |z: int| r0.rep(z);
+                    let rb = |z: int| self.part.rep(z);
+                    assert(united(ra, rb, a as int, b as int));
+                    assert forall|x: int| 0 <= x < self.table@.len() implies 0 <= #[trigger] self.part.rep(x) < self.table@.len() by {
+                        assert(rb(x) == (if ra(x) == ra(a as int) || ra(x) == ra(b as int) { rb(a as int) } else { ra(x) }));
+                        assert(0 <= r0.rep(x) < self.table@.len());
+                        assert(0 <= r0.rep(a as int) < self.table@.len());
+                        assert(0 <= r0.rep(b as int) < self.table@.len());
+                    }
+                    assert forall|x: int| #[trigger] self.part.rep(self.part.rep(x)) == self.part.rep(x) by {
+                        let y = rb(x);
+                        assert(rb(x) == (if ra(x) == ra(a as int) || ra(x) == ra(b as int) { rb(a as int) } else { ra(x) }));
+                        assert(rb(y) == (if ra(y) == ra(a as int) || ra(y) == ra(b as int) { rb(a as int) } else { ra(y) }));
+                        assert(r0.rep(r0.rep(x)) == r0.rep(x));
+                        assert(r0.rep(r0.rep(a as int)) == r0.rep(a as int));
+                        assert(r0.rep(r0.rep(b as int)) == r0.rep(b as int));
+                    }
+                    assert(rows_ok(self));
+                }
+            }
+            proof { qg = queue@; }
+        }
+    }
+    //@ end
+}
+
+proof fn lemma_trace_rows_ok(t: &CosetTable, row: int, w: Seq<isize>)
+    requires rows_ok(t), 0 <= row < t.table@.len(), cols_ok(t, w), trace(t, row, w).is_some()
+    ensures trace(t, row, w).unwrap() < t.table@.len()
+    decreases w.len()
+{
+    if w.len() > 0 {
+        let w0 = w.drop_last();
+        assert forall|j: int| 0 <= j < w0.len() implies t.col_ok(#[trigger] w0[j] as int) by { assert(w0[j] == w[j]); }
+        lemma_trace_rows_ok(t, row, w0);
+        assert(t.col_ok(w[w.len() - 1] as int));
+        lemma_act_in_range(t, trace(t, row, w0).unwrap() as int, w.last() as int);
+    }
+}
+
+//@ begin src/fpgroups/cosets.rs :: - :: fn scan_and_connect
+//@ rw R16 /\) -> Option<\(usize, isize\)>/) -> (r: Option<(usize, isize)>)/
+fn scan_and_connect(
+    table: &mut CosetTable, w: &FreeWord, start: usize
+) -> (r: Option<(usize, isize)>)
+    requires rows_ok(old(table)), cols_ok(old(table), w@), start < old(table).table@.len()
+    ensures rows_ok(final(table)), final(table).nr_gens == old(table).nr_gens, final(table).table@.len() == old(table).table@.len(),
+        r.is_some() ==> r.unwrap().0 < final(table).table@.len(),
+{
+    let (head, tail, gap, c) = scan_both_ways(table, w, start);
+
+    if gap == 1 {
+        let ghost t0 = *table;
+        table.join(head, tail, c);
+        proof {
+            assert(table.table@.len() == t0.table@.len());
+            assert forall|c2: int, g2: int| 0 <= c2 < table.table@.len() && table.col_ok(g2) implies -1 <= #[trigger] table.raw(c2, g2) < table.table@.len() by {
+                if !(c2 == head && g2 == c) && !(c2 == tail && g2 == -(c as int)) { assert(table.raw(c2, g2) == t0.raw(c2, g2)); }
+            }
+        }
+        Some((head, c))
+    } else {
+        if gap == 0 && head != tail {
+            table.merge(head, tail);
+        }
+        None
+    }
+}
+//@ end
+
+// ---- compact(): renumbering of the live rows
+pub open spec fn canonical(t: &CosetTable, c: int) -> bool { 0 <= c < t.table@.len() && t.part.rep(c) == c }
+
+// r is t with its canonical rows renumbered by nw (first-member order, so the class of row 0 stays row 0) and a fresh partition
+pub open spec fn compacted(t: &CosetTable, r: &CosetTable, nw: Seq<int>) -> bool {
+    &&& r.wf() && r.nr_gens == t.nr_gens
+    &&& 1 <= r.table@.len() <= t.table@.len()
+    &&& forall|x: int| #[trigger] r.part.rep(x) == x
+    &&& nw.len() == t.table@.len()
+    &&& forall|c: int| canonical(t, c) ==> 0 <= #[trigger] nw[c]
+    &&& forall|c1: int, c2: int| canonical(t, c1) && canonical(t, c2) && c1 != c2 ==> #[trigger] nw[c1] != #[trigger] nw[c2]
+    &&& nw[t.part.rep(0)] == 0
+    &&& forall|k: int, g: int| canonical(t, k) && t.gen_ok(g) ==>
+            #[trigger] r.act(nw[k], g) == (match t.act(k, g) { Some(c) => Some(nw[c as int] as usize), None => None })
+    &&& forall|x: int| #[trigger] is_row(r, x) ==> exists|k: int| canonical(t, k) && #[trigger] nw[k] == x
+}
+pub open spec fn is_row(t: &CosetTable, x: int) -> bool { 0 <= x < t.table@.len() }
+
+// position of a generator in all_gens()
+pub open spec fn gen_index(t: &CosetTable, g: int) -> int { if g > 0 { g - 1 } else { t.nr_gens - g - 1 } }
+pub open spec fn res_entry(r: &CosetTable, x: int, g: int) -> int { if 0 <= x < r.table@.len() { r.raw(x, g) } else { -1 } }
+// entry (x, g) of the result while row `upto` of the source is being copied and the first `gi` generators of that row are done
+pub open spec fn entry_spec(t: &CosetTable, o2n: Seq<usize>, n2o: Seq<int>, x: int, g: int, upto: int, gi: int) -> int {
+    let c0 = n2o[x];
+    if t.gen_ok(g) && (c0 < upto || (c0 == upto && gen_index(t, g) < gi)) && t.act(c0, g).is_some() { o2n[t.act(c0, g).unwrap() as int] as int } else { -1 }
+}
+pub open spec fn numbering_ok(t: &CosetTable, o2n: Seq<usize>, n2o: Seq<int>, n: int) -> bool {
+    &&& o2n.len() == t.table@.len() && n2o.len() == n && 0 <= n <= t.table@.len()
+    &&& forall|c: int| 0 <= c < t.table@.len() && #[trigger] o2n[c] != t.table@.len() ==> canonical(t, c) && o2n[c] < n && n2o[o2n[c] as int] == c
+    &&& forall|m: int| 0 <= m < n ==> 0 <= #[trigger] n2o[m] < t.table@.len() && o2n[n2o[m]] == m
+}
+
+impl CosetTable {
+    //@ begin src/fpgroups/cosets.rs :: impl CosetTable :: fn compact
+    //@ rw R16 /-> CosetTable$/-> (result: CosetTable)/
+    //@ rw R12 /let mut n = 0;/let mut n: usize = 0;/
+    //@ rw R17 /for g in self\.all_gens\(\)$/for g in it: self.all_gens()/
+    #[verifier::spinoff_prover]
+    fn compact(&self) -> (result: CosetTable)
+        requires rows_ok(self)
+        ensures exists|nw: Seq<int>| compacted(self, &result, nw)
+    {
+        // number the classes in the order of their first members, so that the
+        // class of row 0 (the subgroup itself) stays row 0
+        let unset = self.len();
+        let mut n: usize = 0;
+        let mut old_to_new = vec![unset; self.len()];
+        let ghost mut n2o: Seq<int> = Seq::empty();
+        for k in 0..self.len()
+            invariant
+                rows_ok(self), unset == self.table@.len(), n <= k,
+                numbering_ok(self, old_to_new@, n2o, n as int),
+                forall|j: int| 0 <= j < k ==> old_to_new@[#[trigger] self.part.rep(j)] != unset,
+                k > 0 ==> old_to_new@[self.part.rep(0)] == 0,
+        {
+            let c = self.canon(k);
+            proof { assert(0 <= self.part.rep(k as int) < self.table@.len()); assert(self.part.rep(self.part.rep(k as int)) == self.part.rep(k as int)); }
+            if old_to_new[c] == unset {
+                let ghost o0 = old_to_new@;
+                old_to_new[c] = n;
+                n += 1;
+                proof {
+                    n2o = n2o.push(c as int);
+                    assert forall|j: int| 0 <= j < k + 1 implies old_to_new@[#[trigger] self.part.rep(j)] != unset by {
+                        if j < k { assert(o0[self.part.rep(j)] != unset); }
+                    }
+                }
+            }
+        }
+        proof {
+            assert(self.part.rep(0) >= 0);
+            assert(n >= 1) by { assert(old_to_new@[self.part.rep(0)] != unset); }
+        }
+
+        let mut result = CosetTable::new(self.nr_gens);
+        for k in 0..self.len()
+            invariant
+                rows_ok(self), unset == self.table@.len(), 1 <= n,
+                numbering_ok(self, old_to_new@, n2o, n as int),
+                forall|j: int| 0 <= j < self.table@.len() ==> old_to_new@[#[trigger] self.part.rep(j)] != unset,
+                old_to_new@[self.part.rep(0)] == 0,
+                result.wf(), result.nr_gens == self.nr_gens, 1 <= result.table@.len() <= n,
+                forall|x: int| #[trigger] result.part.rep(x) == x,
+                forall|x: int, g: int| 0 <= x < n && self.col_ok(g) ==> #[trigger] res_entry(&result, x, g) == entry_spec(self, old_to_new@, n2o, x, g, k as int, 0),
+        {
+            if self.canon(k) == k {
+                let ghost row = old_to_new@[k as int] as int;
+                proof { assert(self.part.rep(k as int) == k); assert(old_to_new@[self.part.rep(k as int)] != unset); assert(n2o[row] == k); }
+                for g in it: self.all_gens()
+                    invariant
+                        rows_ok(self), unset == self.table@.len(), 1 <= n, k < self.table@.len(), canonical(self, k as int),
+                        row == old_to_new@[k as int], 0 <= row < n, n2o[row] == k,
+                        numbering_ok(self, old_to_new@, n2o, n as int),
+                        forall|j: int| 0 <= j < self.table@.len() ==> old_to_new@[#[trigger] self.part.rep(j)] != unset,
+                        old_to_new@[self.part.rep(0)] == 0,
+                        result.wf(), result.nr_gens == self.nr_gens, 1 <= result.table@.len() <= n,
+                        forall|x: int| #[trigger] result.part.rep(x) == x,
+                        it.seq().len() == 2 * self.nr_gens,
+                        forall|j: int| 0 <= j < it.seq().len() ==> self.gen_ok(#[trigger] it.seq()[j] as int) && gen_index(self, it.seq()[j] as int) == j,
+                        forall|x: int, g: int| 0 <= x < n && self.col_ok(g) ==> #[trigger] res_entry(&result, x, g) == entry_spec(self, old_to_new@, n2o, x, g, k as int, it.index() as int),
+                {
+                    let ghost gi = it.index() as int;
+                    proof { assert(self.gen_ok(it.seq()[gi] as int) && gen_index(self, it.seq()[gi] as int) == gi); }
+                    if let Some(c) = self.get(k, g) {
+                        proof {
+                            lemma_act_in_range(self, k as int, g as int);
+                            assert(old_to_new@[self.part.rep(c as int)] != unset);
+                            assert(old_to_new@[self.part.rep(k as int)] != unset);
+                        }
+                        let ghost r0 = result;
+                        result.set(old_to_new[k], g, old_to_new[c]);
+                        proof {
+                            assert forall|x: int, g2: int| 0 <= x < n && self.col_ok(g2) implies #[trigger] res_entry(&result, x, g2) == entry_spec(self, old_to_new@, n2o, x, g2, k as int, gi + 1) by {
+                                assert(res_entry(&r0, x, g2) == entry_spec(self, old_to_new@, n2o, x, g2, k as int, gi));
+                                if x == row && g2 == g { }
+                                else {
+                                    if x < r0.table@.len() { assert(result.raw(x, g2) == r0.raw(x, g2)); }
+                                    else if x < result.table@.len() { assert(result.raw(x, g2) == -1); }
+                                    if x == row && self.gen_ok(g2) && gen_index(self, g2) == gi { assert(g2 == g); }
+                                }
+                            }
+                        }
+                    } else {
+                        proof {
+                            assert forall|x: int, g2: int| 0 <= x < n && self.col_ok(g2) implies #[trigger] res_entry(&result, x, g2) == entry_spec(self, old_to_new@, n2o, x, g2, k as int, gi + 1) by {
+                                assert(res_entry(&result, x, g2) == entry_spec(self, old_to_new@, n2o, x, g2, k as int, gi));
+                                if x == row && self.gen_ok(g2) && gen_index(self, g2) == gi { assert(g2 == g); }
+                            }
+                        }
+                    }
+                }
+                proof {
+                    assert forall|x: int, g: int| 0 <= x < n && self.col_ok(g) implies #[trigger] res_entry(&result, x, g) == entry_spec(self, old_to_new@, n2o, x, g, k + 1, 0) by {
+                        assert(res_entry(&result, x, g) == entry_spec(self, old_to_new@, n2o, x, g, k as int, 2 * self.nr_gens as int));
+                        if self.gen_ok(g) { assert(0 <= gen_index(self, g) < 2 * self.nr_gens); }
+                    }
+                }
+            } else {
+                proof {
+                    assert forall|x: int, g: int| 0 <= x < n && self.col_ok(g) implies #[trigger] res_entry(&result, x, g) == entry_spec(self, old_to_new@, n2o, x, g, k + 1, 0) by {
+                        assert(res_entry(&result, x, g) == entry_spec(self, old_to_new@, n2o, x, g, k as int, 0));
+                        assert(canonical(self, n2o[x]));
+                    }
+                }
+            }
+        }
+
+        proof {
+            let nw = Seq::new(self.table@.len(), |c: int| old_to_new@[c] as int);
+            let len = self.table@.len() as int;
+            assert forall|k: int, g: int| canonical(self, k) && self.gen_ok(g) implies
+                #[trigger] result.act(nw[k], g) == (match self.act(k, g) { Some(c) => Some(nw[c as int] as usize), None => None }) by {
+                assert(old_to_new@[self.part.rep(k)] != unset);
+                let x = old_to_new@[k] as int;
+                assert(n2o[x] == k);
+                assert(res_entry(&result, x, g) == entry_spec(self, old_to_new@, n2o, x, g, len, 0));
+                if self.act(k, g).is_some() {
+                    lemma_act_in_range(self, k, g);
+                    let c = self.act(k, g).unwrap() as int;
+                    assert(old_to_new@[self.part.rep(c)] != unset);
+                }
+            }
+            assert forall|x: int| #[trigger] is_row(&result, x) implies exists|k: int| canonical(self, k) && #[trigger] nw[k] == x by {
+                let k = n2o[x];
+                assert(old_to_new@[k] == x);
+                assert(canonical(self, k));
+                assert(nw[k] == x);
+            }
+            assert forall|c1: int, c2: int| canonical(self, c1) && canonical(self, c2) && c1 != c2 implies #[trigger] nw[c1] != #[trigger] nw[c2] by {
+                assert(old_to_new@[self.part.rep(c1)] != unset); assert(old_to_new@[self.part.rep(c2)] != unset);
+            }
+            assert forall|c: int| canonical(self, c) implies 0 <= #[trigger] nw[c] by { }
+            assert(compacted(self, &result, nw));
+        }
+        result
+    }
+    //@ end
+}
+
 // vacuity guards
 proof fn canary_valid_is_satisfiable(t: &CosetTable)
     requires valid(t), t.nr_gens == 1, t.table@.len() == 2
@@ -465,6 +868,7 @@ fn canary_scan_contract(t: &CosetTable, w: &FreeWord)
 {
     let r = scan_both_ways(t, w, 0);
 }
+
 
 } // verus!
 fn main() {}
